@@ -75,17 +75,6 @@ def _fromhex_ok(sx, args, kwargs, st, node):
     return [R(st, Val(V.Bool, FROMHEX_OK(args[0].term)))]
 
 
-# is_signed: C03's anchor.  `authentic` is the property's notion; Event.verify()'s own contract (from aionostr's
-# source) is weaker: it recomputes the hash and checks signatures over it but never compares it with event.id.
-REG.unit(Unit(
-    P, "is_signed",
-    Contract("is_signed", {"event": EVENT, "config": CFG},
-             ensures=[("accepted-only-if-verify", "event_verify(event)")],
-             raises={"StorageError": "not event_verify(event)"}),
-    props=["C16", "C03"], setup=clock0, canaries=[("never-accepts", "False")],
-))
-
-
 @REG.model("event_verify")
 def _event_verify(sx, args, kwargs, st, node):
     from .common import VERIFY
@@ -113,13 +102,6 @@ def _call_validator(sx, f, args, kwargs, st, node):
     return [R(st, NONE), R(s2, None, Exc("Exception", exact=False))]
 
 
-class AsyncioModule:
-    def __pyvc_getattr__(self, sx, attr, st, node):
-        if attr == "get_running_loop":
-            return [R(st, Func(lambda sx2, a, k, s, n: [R(s, Conc(LoopObj()))], "asyncio.get_running_loop"))]
-        raise Exception("asyncio." + attr)
-
-
 class LoopObj:
     def __pyvc_getattr__(self, sx, attr, st, node):
         if attr == "run_in_executor":
@@ -129,7 +111,12 @@ class LoopObj:
         raise Exception("loop." + attr)
 
 
-REG.globals["asyncio"] = Conc(AsyncioModule())
+from .common import asyncio_attr  # noqa: E402
+
+
+@asyncio_attr("get_running_loop")
+def _aio_loop(sx, st, node):
+    return [R(st, Func(lambda sx2, a, k, s, n: [R(s, Conc(LoopObj()))], "asyncio.get_running_loop"))]
 
 
 def setup_pipeline(sx, st, params):
@@ -157,3 +144,112 @@ REG.unit(Unit(
     props=["C16", "C03"], setup=setup_pipeline,
     canaries=[("skips-one", "len(ghost('called')) < len(validators)")],
 )).ghost_const = ("the_event", "clock")
+
+
+# =============================================================================================
+# is_canonical / is_signed after fix 67b8802: the property's notion of an authentic event
+# =============================================================================================
+from pyvc import builtins as B  # noqa: E402
+
+# the event as built by Event(**payload): every field may hold an arbitrary JSON value
+RAW = V.Rec("RawEvent", {"id": V.Json, "pubkey": V.Json, "created_at": V.Json, "kind": V.Json, "content": V.Json, "tags": V.Json, "sig": V.Json})
+COMPUTE_ID = REG.ufun("compute_id", [V.Json.sort()] * 5, z3.StringSort())
+RAW_VERIFY = REG.ufun("raw_verify", [RAW.sort()], z3.BoolSort())
+
+
+class EventClass:
+    """aionostr.event.Event (class attribute access)"""
+    __pyvc_classname__ = "Event"
+
+    def __pyvc_getattr__(self, sx, attr, st, node):
+        if attr == "compute_id":
+            def cid(sx2, a, k, s, n):
+                """Event.compute_id (ASSUMED): lowercase sha256 hex digest of the canonical serialization of its arguments"""
+                args = [sx2.coerce(x, V.Json, s) if not isinstance(x.ty, V._Json) else x for x in a]
+                r = COMPUTE_ID(*[x.term for x in args])
+                s.assume(z3.Length(r) == 64)
+                s.assume(z3.InRe(r, z3.Star(z3.Union(z3.Range("0", "9"), z3.Range("a", "f")))))
+                return [R(s, Val(V.Str, r))]
+            return [R(st, Func(cid, "Event.compute_id"))]
+        raise Unsupported("Event.%s" % attr, node)
+
+
+from pyvc.sx import Unsupported  # noqa: E402
+REG.globals["Event"] = Conc(EventClass())
+
+
+def _raw_verify(sx, ev, st, node):
+    return [R(st, Func(lambda sx2, a, k, s, n: [R(s, Val(V.Bool, RAW_VERIFY(ev.term)))], "Event.verify"))]
+
+
+REG.rec_props[("RawEvent", "verify")] = _raw_verify
+
+
+@REG.model("jkind")
+def _jkind(sx, args, kwargs, st, node):
+    return [R(st, Val(V.Int, B.J()["kind"](args[0].term)))]
+
+
+@REG.model("jstr")
+def _jstr(sx, args, kwargs, st, node):
+    return [R(st, Val(V.Str, B.J()["str"](args[0].term)))]
+
+
+@REG.model("jitem")
+def _jitem(sx, args, kwargs, st, node):
+    return [R(st, Val(V.Json, B.J()["item"](args[0].term, args[1].term)))]
+
+
+@REG.model("jlen")
+def _jlen(sx, args, kwargs, st, node):
+    return [R(st, Val(V.Int, B.J()["len"](args[0].term)))]
+
+
+@REG.model("raw_verify")
+def _raw_verify_spec(sx, args, kwargs, st, node):
+    return [R(st, Val(V.Bool, RAW_VERIFY(args[0].term)))]
+
+
+@REG.model("compute_id")
+def _compute_id_spec(sx, args, kwargs, st, node):
+    return [R(st, Val(V.Str, COMPUTE_ID(*[a.term for a in args])))]
+
+
+JSTR, JINT, JLIST = 4, 2, 5
+LOWHEX = "(jkind(%s) == 4 and len(jstr(%s)) == %d and all(c in '0123456789abcdef' for c in jstr(%s)))"
+TAG_OK = ("jkind(jitem(event.tags, i)) == 5 and jlen(jitem(event.tags, i)) > 0 and "
+          "all_range(0, jlen(jitem(event.tags, i)), lambda k: jkind(jitem(jitem(event.tags, i), k)) == 4 or jkind(jitem(jitem(event.tags, i), k)) == 2)")
+CANON = ("jkind(event.created_at) == 2 and jkind(event.kind) == 2 and jkind(event.content) == 4 and "
+         + LOWHEX % ("event.pubkey", "event.pubkey", 64, "event.pubkey") + " and "
+         + LOWHEX % ("event.sig", "event.sig", 128, "event.sig") + " and "
+         "jkind(event.tags) == 5 and all_range(0, jlen(event.tags), lambda i: %s) and "
+         "jkind(event.id) == 4 and jstr(event.id) == compute_id(event.pubkey, event.created_at, event.kind, event.tags, event.content)" % TAG_OK)
+
+is_canonical = REG.unit(Unit(
+    P, "is_canonical",
+    Contract("is_canonical", {"event": RAW},
+             # Event.__init__ stores int(kind): the kind field is always an int
+             requires=[("kind-is-int-by-construction", "jkind(event.kind) == 2")],
+             ensures=[("canonical-iff-nip01-types-and-own-id", "result == (%s)" % CANON)],
+             returns=V.Bool),
+    loops={
+        "event.tags": LoopSpec("tags", index="_i", invariants=[("tags-so-far-ok", "all_range(0, _i, lambda i: %s)" % TAG_OK)]),
+        "tag": LoopSpec("items", index="_k", invariants=[
+            ("items-so-far-ok", "all_range(0, _k, lambda k: jkind(jitem(tag, k)) == 4 or jkind(jitem(tag, k)) == 2)")]),
+    },
+    props=["C03", "C04", "C16"], canaries=[("accepts-everything", "result")],
+))
+is_canonical.ghost_havoc = lambda sx, body, st: None
+
+
+# is_signed (C03's anchor): returns normally only for an authentic event -- canonical fields, id = hash of its own fields,
+# and Event.verify() (signature over the recomputed hash + every delegation tag's signature; crypto uninterpreted)
+AUTHENTIC = "(%s) and raw_verify(event)" % CANON
+REG.unit(Unit(
+    P, "is_signed",
+    Contract("is_signed", {"event": RAW, "config": CFG},
+             requires=[("kind-is-int-by-construction", "jkind(event.kind) == 2")],
+             ensures=[("accepted-only-if-authentic", AUTHENTIC)],
+             raises={"StorageError": "not (%s)" % AUTHENTIC}),
+    props=["C16", "C03"], setup=clock0, canaries=[("never-accepts", "False")],
+))
